@@ -91,6 +91,12 @@ package xpull
 //@   ensures wasClosed ==> result == protocol.ErrClosed && !spawned("receiver") && !spawned("sender")
 //@   ensures !wasClosed && isnil(result) ==> spawned("receiver")
 //@   ensures !wasClosed ==> isnil(result)
+//@   before go:receiver#1 assert fresh(p.closeQ)
 //@   before call:SetPrivate#1 assert p.p == pp && p.s == s
 //@
 // ---- end generated AddPipe contracts ----
+//@
+//@ func (*socket).SetOption
+//@   at call:close#1 set woke:bool = true
+//@   ensures name == protocol.OptionReadQLen && isnil(result) ==> woke
+//@   before call:close#1 assert zq == at("call:Lock#2", s.sizeQ)
